@@ -58,10 +58,23 @@ def run_canaries(ctx):
     import glob
     import random
     entries = []
+    vfile = os.path.join(here, "canaries", "VALIDATED.json")
     for f in sorted(glob.glob(os.path.join(here, "canaries", "*.json"))):
+        if f == vfile:
+            continue
         entries += [c for c in json.load(open(f)) if c.get("prop") == ctx.prop]
     if not entries:
         return
+    if os.path.exists(vfile):
+        # only canaries that were re-run against the CURRENT /repo (after its last repair) take part in the self-test: an edit
+        # written against older source text can stop applying cleanly, which says nothing about the check
+        validated = set(json.load(open(vfile)))
+        n_all = len(entries)
+        entries = [c for c in entries if c["name"] in validated]
+        if len(entries) != n_all:
+            ctx.note(f"thorough self-test: {n_all - len(entries)} of {n_all} canaries of this property not re-validated on the current tree - left out")
+        if not entries:
+            return
     total = len(entries)
     if not os.environ.get("VERIF_ALL_CANARIES"):
         # each canary is a whole check run on a scratch copy: the self-test takes a seeded sample (all of them with
